@@ -124,6 +124,15 @@ func (t *IterableType) IsAssignable(o px.Type, g px.Guard) bool {
 }
 
 func (t *IterableType) IsInstance(o px.Value, g px.Guard) bool {
+	// each element that an Array or a Hash iterates over must be an instance of the element type: the inferred
+	// element type of the value is a common type of its elements, which the element type may reject although it
+	// contains every one of them
+	switch o := o.(type) {
+	case *Array:
+		return o.All(func(e px.Value) bool { return GuardedIsInstance(t.typ, e, g) })
+	case *Hash:
+		return o.AllPairs(func(k, v px.Value) bool { return GuardedIsInstance(t.typ, WrapValues([]px.Value{k, v}), g) })
+	}
 	if iv, ok := o.(px.Indexed); ok {
 		// an empty collection iterates over nothing
 		return iv.Len() == 0 || GuardedIsAssignable(t.typ, iv.ElementType(), g)
